@@ -135,6 +135,7 @@ def run(ctx):
             ctx.report("offset-guard", "%s:%s" % (fn, p), ok, "%s ∈ [%r, %r%s at every normal return" % (p, lo, hi, ")" if his else "]"), at=b.span)
     ring_offsets(ctx, crate)
     n = e7.check_fn(ctx, crate, "ring::center_of_projected_cell", "exact-integer-sqrt")
+    e7.isqrt_table(ctx, crate)
     ctx.floor("sqrt-chains-in-center_of_projected_cell", n, 1)
     try:
         from rules import c11_forms
